@@ -2,3 +2,5 @@
 
 pub mod convert;
 pub mod data;
+#[cfg(feature = "verif-hooks")]
+pub mod verif;
